@@ -382,7 +382,7 @@ fn run_schedule(opens: &[usize], refs: &[Kv], models: &[BTreeMap<u32, Vec<u32>>]
             });
         }
         // controller
-        let timeout = Duration::from_secs(60);
+        let timeout = Duration::from_secs(180);
         let mut opened = vec![false; n_readers];
         let all = 1 + n_readers;
         let step_reader = |k: usize, cmd: Cmd| -> bool {
@@ -435,7 +435,7 @@ fn run_schedule(opens: &[usize], refs: &[Kv], models: &[BTreeMap<u32, Vec<u32>>]
         if !ok {
             let mut f = failure.lock().unwrap();
             if f.is_none() {
-                *f = Some(("A/deadlock".into(), format!("no participant made progress for 60 s (statuses {:?}); reader/writer deadlock", sched.statuses())));
+                *f = Some(("A/deadlock".into(), format!("no participant made progress for 180 s (statuses {:?}); reader/writer deadlock", sched.statuses())));
             }
         }
     });
@@ -547,7 +547,7 @@ fn run_two_snapshots(a: usize, b: usize, refs: &[Kv], models: &[BTreeMap<u32, Ve
                 sched.finish(1);
             });
         }
-        let timeout = Duration::from_secs(60);
+        let timeout = Duration::from_secs(180);
         let mut ok = sched.quiesce(2, timeout).is_some();
         let mut stage = 0; // 0 = nothing open, 1 = first open, 2 = both open
         let step_reader = |cmd: Cmd| -> bool {
@@ -584,7 +584,7 @@ fn run_two_snapshots(a: usize, b: usize, refs: &[Kv], models: &[BTreeMap<u32, Ve
         if !ok {
             let mut f = failure.lock().unwrap();
             if f.is_none() {
-                *f = Some(("A/deadlock".into(), "no participant made progress for 60 s".into()));
+                *f = Some(("A/deadlock".into(), "no participant made progress for 180 s".into()));
             }
         }
     });
